@@ -61,3 +61,42 @@ def run_subprocess(argv, stdin_bytes=None, timeout=120):
 
 def strip(text):
     return ANSI.sub("", text)
+
+
+def run_subprocess_fifo(argv, fifo_path, data, timeout=120):
+    """the CLI reads one of its input files from a named pipe that a writer thread feeds"""
+    import threading
+    os.mkfifo(fifo_path)
+    env = dict(os.environ)
+    env["PYTHONPATH"] = os.environ.get("VERIF_REPO_SRC", "/repo/src")
+    env["PYTHONDONTWRITEBYTECODE"] = "1"
+    p = subprocess.Popen([sys.executable, "-m", "tpmstream"] + list(argv), stdout=subprocess.PIPE, stderr=subprocess.PIPE, env=env, cwd="/")
+
+    def feed():
+        try:
+            fd = os.open(fifo_path, os.O_WRONLY)
+            try:
+                view = memoryview(data)
+                while view:
+                    n = os.write(fd, view[:4096])
+                    view = view[n:]
+            finally:
+                os.close(fd)
+        except OSError:
+            pass
+    th = threading.Thread(target=feed, daemon=True)
+    th.start()
+    try:
+        out, err = p.communicate(timeout=timeout)
+    except subprocess.TimeoutExpired:
+        p.kill()
+        out, err = p.communicate()
+    if th.is_alive():
+        # the CLI never opened the pipe (e.g. it refused the path): unblock the writer
+        try:
+            fd = os.open(fifo_path, os.O_RDONLY | os.O_NONBLOCK)
+            os.close(fd)
+        except OSError:
+            pass
+        th.join(2)
+    return p.returncode, out.decode("utf-8", "replace"), err.decode("utf-8", "replace")
